@@ -24,6 +24,7 @@ func init() {
 			"R3 old key retired: rotate.Key returns nil only after the old key was destroyed or the previous primary version was found empty (ESP, with the rules of C10). " +
 			"R4 profile: NotAfter is NotBefore plus exactly RootValidDays for a CA / self-issued template and SignValidDays otherwise, per branch on IsCA / Issuer == nil; where a producer sets KeyUsage, the CA arm has IsCA=true and CertSign|CRLSign and the other arm DigitalSignature. " +
 			"R5 default serial: the rotate command stores the default serial from sign/ops.NextSigningKeySerial, which returns parsed-subject-serial + the constant 1 of the primary signing certificate. " +
+			"R9 in sign/gcsca a loop over a mutation's certificates goes round only behind the iteration's upload call (or for a nil certificate). " +
 			"R8 (ESP) no production Wipeout (rotate.Wipeout, the storage-backed CA, wrapping key managers) returns nil on a path on which one of its wipeout / destroy / delete steps failed. " +
 			"R7 a key manager that embeds another implementation of keys.ManagerInterface and overrides its Create* methods also overrides DestroyKeyVersion and Wipeout (none of them is taken from the embedded manager by promotion). " +
 			"R6 profile ownership: every store into a field of an x509.Certificate in production code writes an object allocated by the storing function (or by all callers of an unexported helper); a template returned by a producer is never adjusted afterwards. " +
@@ -39,6 +40,7 @@ func isCertField(fa *ssa.FieldAddr, name string) bool {
 
 func runC12(c *Ctx) {
 	defer c12Wipeout(c)
+	defer c12EveryCertUploaded(c)
 	stypPkg := repoPath("sign/types")
 	sl := flow.NewSlicer(c.P)
 	sl.ThroughOutParams = true
@@ -764,4 +766,99 @@ func c12Wipeout(c *Ctx) {
 		}
 	}
 	c.S.Floor("R8", "production Wipeout functions with wipeout / destroy steps", 2, n)
+}
+
+// c12EveryCertUploaded — R9: every certificate a mutation carries goes through the upload gate. In package sign/gcsca,
+// a loop that ranges over a map of certificates (map[string]*x509.Certificate: the mutation's certs) goes round only
+// after a call that reaches the storage writer (upload → writeIfAllowed → Storage.Writer) in that iteration, or where
+// the certificate of the iteration is nil. A shortcut that `continue`s because "the manifest already names this
+// object" leaves the stale certificate of a regenerated key in place while the operation reports success.
+func c12EveryCertUploaded(c *Ctx) {
+	storagePkg := repoPath("storage/ops")
+	_ = storagePkg
+	reachesWriter := map[*ssa.Function]bool{}
+	writes := func(g *ssa.Function) bool {
+		if v, ok := reachesWriter[g]; ok {
+			return v
+		}
+		r := false
+		for h := range c.reachable([]*ssa.Function{g}, func(h *ssa.Function) bool { return load.FuncInRepo(h) }) {
+			if h == nil {
+				continue
+			}
+			if len(callsIn(h, func(call ssa.CallInstruction) bool {
+				return call.Common().IsInvoke() && call.Common().Method.Name() == "Writer"
+			})) > 0 {
+				r = true
+			}
+		}
+		reachesWriter[g] = r
+		return r
+	}
+	n := 0
+	for _, f := range c.P.RepoFunctions() {
+		if load.RelPkg(f) != "sign/gcsca" || c.isTestFunc(f) || f.Blocks == nil {
+			continue
+		}
+		for _, L := range naturalLoops(f) {
+			// a range over a map of certificates
+			var rng *ssa.Range
+			for b := range L.Body {
+				for _, in := range b.Instrs {
+					if nx, ok := in.(*ssa.Next); ok {
+						if r, ok := nx.Iter.(*ssa.Range); ok {
+							if mt, ok := r.X.Type().Underlying().(*types.Map); ok && strings.HasSuffix(mt.Elem().String(), "x509.Certificate") {
+								rng = r
+							}
+						}
+					}
+				}
+			}
+			if rng == nil {
+				continue
+			}
+			n++
+			uploadBlocks := map[*ssa.BasicBlock]bool{}
+			for b := range L.Body {
+				for _, in := range b.Instrs {
+					if call, ok := in.(ssa.CallInstruction); ok {
+						if g := call.Common().StaticCallee(); g != nil && load.RelPkg(g) == "sign/gcsca" && writes(g) {
+							uploadBlocks[b] = true
+						}
+					}
+				}
+			}
+			bad := 0
+			for _, back := range L.Backs {
+				ok := false
+				for d := back; d != nil && L.Body[d]; d = d.Idom() {
+					if uploadBlocks[d] {
+						ok = true
+					}
+					if d == L.Header {
+						break
+					}
+				}
+				if !ok {
+					// the iteration's certificate is nil
+					for _, cf := range dominatingConds(back) {
+						if !L.Body[cf.Block] {
+							continue
+						}
+						if bo, isB := cf.Cond.(*ssa.BinOp); isB && (bo.Op == token.EQL) == cf.Val && (bo.Op == token.EQL || bo.Op == token.NEQ) && isNilK(bo.Y) && strings.HasSuffix(bo.X.Type().String(), "x509.Certificate") {
+							ok = true
+						}
+					}
+				}
+				if !ok {
+					bad++
+					c.S.Bad("R9", load.FuncName(f)+":every certificate uploaded", c.pos(back.Instrs[len(back.Instrs)-1].Pos()), "the loop over the mutation's certificates can go round without the iteration's certificate having gone through the upload gate: a certificate is silently dropped while the operation reports success (the stored certificate of a regenerated key stays the old one)")
+				}
+			}
+			if bad == 0 {
+				c.S.OK("R9", load.FuncName(f)+":every certificate uploaded", c.pos(L.Header.Instrs[0].Pos()), fmt.Sprintf("%d back edge(s), each behind the upload call of the iteration", len(L.Backs)), true)
+			}
+		}
+	}
+	c.S.Floor("R9", "loops over a mutation's certificates in sign/gcsca", 1, n)
 }
